@@ -242,7 +242,7 @@ VOLUME = {   # tier -> (L1 cases, serial, fork, spawn)
     'thorough': (6000, 400, 120, 30),
 }
 L2_VOLUME = {'quick': 24, 'thorough': 250}     # scripted real ProcessExecutor runs (C04, C05, C10, C11)
-L2_PROPS = {'C04': ['worker-limit-exceeded'], 'C05': ['idle-slot'], 'C11': ['dead-not-detected'], 'C10': []}
+L2_PROPS = {'C04': ['worker-limit-exceeded'], 'C05': ['idle-slot', 'dead-not-detected'], 'C11': ['dead-not-detected'], 'C10': []}
 
 
 def nontrivial(case, obs):
@@ -279,7 +279,20 @@ def stage_falsy_results(report, dist):
         shutil.rmtree(d, ignore_errors=True)
 
 
-def stage_nested_names(report, dist):
+def _nested_pair(report, dist, prop, lab, backend, pa, pb, want_a, want_b):
+    ra = lab.run_tasks([pa], disable_progress=True, disable_top=True).get(pa)
+    rb = lab.run_tasks([pb], disable_progress=True, disable_top=True).get(pb)
+    both = lab.run_tasks([pa, pb], disable_progress=True, disable_top=True)
+    dist['nested_name_runs'] += 3
+    if (ra, rb, both.get(pa), both.get(pb)) != (want_a, want_b, want_a, want_b):
+        sig = 'wrong-result' if prop == 'C01' else 'other-task-served'
+        report.violation(f'{prop}:{sig}', f'backend {backend}: {pa!r} / {pb!r} (different tasks) returned {ra!r} / {rb!r}, then {both.get(pa)!r} / {both.get(pb)!r} '
+                                          f'from the cache; expected {want_a!r} / {want_b!r}', dict(level='nested-names', backend=backend))
+        return True
+    return False
+
+
+def stage_nested_names(report, dist, prop='C01'):
     """C01, directed: two task types with the same class name nested in different classes, used as dependencies of otherwise
     identical tasks, on one storage: what each dependent returns is what *its* dependency computes, whichever ran (and was
     cached) first."""
@@ -291,6 +304,12 @@ def stage_nested_names(report, dist):
     try:
         for backend in ('serial', 'fork'):
             lab = Lab(storage=os.path.join(d, backend), runner_backend=backend, max_workers=2, notebook=False)
+            # (also: dict parameters with the same keys and different values)
+            for pa, pb, want_a, want_b in ((U.VDep(x=U.NestA_Leaf(x=1)), U.VDep(x=U.NestB_Leaf(x=1)), ('dep-says', ('from-A', 1)), ('dep-says', ('from-B', 1))),
+                                           (U.VRet(x={'k': 1, 'l': (2,)}, i=0), U.VRet(x={'k': 2, 'l': (3,)}, i=0), {'k': 1, 'l': (2,)}, {'k': 2, 'l': (3,)})):
+                if _nested_pair(report, dist, prop, lab, backend, pa, pb, want_a, want_b):
+                    return
+            continue
             pa, pb = U.VDep(x=U.NestA_Leaf(x=1)), U.VDep(x=U.NestB_Leaf(x=1))
             ra = lab.run_tasks([pa], disable_progress=True, disable_top=True).get(pa)
             rb = lab.run_tasks([pb], disable_progress=True, disable_top=True).get(pb)
@@ -301,6 +320,44 @@ def stage_nested_names(report, dist):
                 report.violation('C01:wrong-result', f'backend {backend}: tasks depending on NestA.Leaf(1) / NestB.Leaf(1) (same class name, different enclosing class) '
                                                      f'returned {ra!r} / {rb!r}, then {both.get(pa)!r} / {both.get(pb)!r} from the cache; expected {want_a!r} / {want_b!r}',
                                  dict(level='nested-names', backend=backend))
+                return
+    finally:
+        shutil.rmtree(d, ignore_errors=True)
+
+
+def stage_die_with_monitor(report, dist, prop):
+    """C10 / C11, directed: real fork workers that die inside run() (os._exit with status 3 and with status 0), the task
+    monitor display switched on (it looks processes up by pid): run_tasks returns, with exactly the tasks that do not
+    depend on a dead one."""
+    import contextlib
+    import io
+    import shutil
+    import tempfile
+    from labtech.lab import Lab
+    from common import subdir
+    d = tempfile.mkdtemp(dir=subdir('die'))
+    try:
+        for top in (True, False):
+            dead = [U.TNx(label=1, beh='die'), U.TNx(label=2, beh='die')]       # labels 1 and 2: exit status 3 and 0
+            ok = [U.TNx(label=10 + i) for i in range(3)]
+            dependent = U.TNx(label=20, deps=(dead[0], ok[0]), reads=(0, 1))
+            lab = Lab(storage=None, runner_backend='fork', max_workers=2, continue_on_failure=True, notebook=False)
+            outcome, res = 'returned', None
+            try:
+                with S.watchdog(30), contextlib.redirect_stdout(io.StringIO()):
+                    res = lab.run_tasks(ok[:1] + dead + ok[1:] + [dependent], disable_progress=True, disable_top=not top)
+            except S.HarnessTimeout:
+                outcome = 'hang'
+            except BaseException as e:   # noqa
+                outcome = f'{type(e).__name__}: {e}'
+            dist['die_in_run_runs'] += 1
+            want = {t.label for t in ok}
+            got = None if res is None else {t.label for t in res}
+            if outcome != 'returned' or got != want:
+                sig = 'no-termination' if outcome == 'hang' else ('continue-raised' if outcome != 'returned' else 'continue-wrong-result')
+                report.violation(f'{prop}:{sig}', f'fork backend, task monitor {"on" if top else "off"}, two workers dying inside run(): run_tasks ended with {outcome}, '
+                                                  f'returned tasks {sorted(got) if got is not None else None}, expected {sorted(want)}',
+                                 dict(level='die-in-run', top=top))
                 return
     finally:
         shutil.rmtree(d, ignore_errors=True)
@@ -330,6 +387,10 @@ def run(prop, report, tier, seed, replay=None):
         stage_falsy_results(report, dist)
         if replay is not None:
             return
+    if prop in ('C10', 'C11') and (replay is None or replay['input'].get('level') == 'die-in-run'):
+        stage_die_with_monitor(report, dist, prop)
+        if replay is not None:
+            return
     if prop == 'C01' and (replay is None or replay['input'].get('level') == 'nested-names'):
         stage_nested_names(report, dist)
         if replay is not None:
@@ -345,6 +406,7 @@ def run(prop, report, tier, seed, replay=None):
                 c = S.gen_case(rng, runner='l2', max_n=7, **spec['gen'])
                 c['max_workers'] = rng.choice([1, 2, 3])
                 c['pre'] = []
+                c['top'] = (len(l2cases) % 3 == 1)          # the task monitor display is on in a third of the runs
                 if len(l2cases) % 3 == 2:
                     # wide graph: independent tasks, so that futures queue up behind the single worker slot
                     c['max_workers'], c['p_kill'] = 1, 0.5
@@ -352,7 +414,26 @@ def run(prop, report, tier, seed, replay=None):
                     c['reads'] = [[] for _ in range(c['n'])]
                     c['req'] = [[t, 0] for t in range(c['n'])]
                 l2cases.append(c)
+            if prop == 'C05':
+                # more workers allowed than there are CPUs: every one of the independent tasks gets its own worker
+                nn = os.cpu_count() + 2
+                l2cases.append(dict(n=nn, types=[1] * nn, specs=[['tuple', []] for _ in range(nn)], reads=[[] for _ in range(nn)], behs=['ok'] * nn,
+                                    req=[[t, 0] for t in range(nn)], storage='none', bust=False, cont=True, runner='l2', max_workers=nn,
+                                    sched_seed=rng.randrange(1 << 30), pre=[], p_kill=0.0))
             if prop == 'C04':
+                # what the runners of the three backends are told: the Lab's max_workers, unchanged
+                from labtech.lab import Lab as _Lab
+                for backend in ('fork', 'spawn'):
+                    for mw in (1, 2, 5):
+                        runner = _Lab(storage=None, runner_backend=backend, max_workers=mw, notebook=False).runner_backend.build_runner(
+                            context={}, storage=_Lab(storage=None, notebook=False)._storage, max_workers=mw)
+                        try:
+                            seen_mw = getattr(getattr(runner, "executor", None), "max_workers", None)
+                            if seen_mw != mw:
+                                report.violation('C04:worker-limit-exceeded', f"the {backend} runner built for max_workers={mw} runs its executor with max_workers={seen_mw}",
+                                                 dict(level='runner-config', backend=backend, max_workers=mw))
+                        finally:
+                            runner.close()
                 # the default worker count: more independent tasks than CPUs, max_workers left unset
                 nn = os.cpu_count() + 3
                 l2cases.append(dict(n=nn, types=[1] * nn, specs=[['tuple', []] for _ in range(nn)], reads=[[] for _ in range(nn)], behs=['ok'] * nn,
